@@ -135,11 +135,15 @@ def rank_fn(spec):
                     sd = p.state_dict()['layers']
                     rec['factors'].append({n: (sd[n]['A'].clone(), sd[n]['G'].clone()) for n in sd})
                 if 'held' in spec.get('record', ()):
+                    # ask for the reports FIRST (communication results may still be in flight at this point: the report must
+                    # account for them), only then walk the tensors (the walk itself waits on the futures)
+                    total = dict(p.memory_usage())
+                    reported = {n: dict(layer.memory_usage()) for n, layer in p._layers.values()}
                     h = {}
                     for n, layer in p._layers.values():
-                        h[n] = dict(held=held_tensors(layer), reported=dict(layer.memory_usage()))
+                        h[n] = dict(held=held_tensors(layer), reported=reported[n])
                     rec['held'].append(h)
-                    rec['mem'].append(dict(p.memory_usage()))
+                    rec['mem'].append(total)
                 if spec.get('sgd_lr'):
                     with torch.no_grad():
                         for q in model.parameters():
